@@ -333,6 +333,9 @@ func runC01(c *Ctx) {
 	c.Borrow(runC05, "C05.M", "C01.T", func(k string) bool { return strings.HasPrefix(k, "splice:") })
 	c.Borrow(runC14, "C14.S", "C01.T", func(k string) bool { return strings.HasPrefix(k, "splice:") })
 	c.Borrow(runC20, "C20.W", "C01.T", nil)
+	// the stand-alone proxy hands on every value of a repeated response field (= C03.H): folding
+	// them into one line merges Set-Cookie fields into a cookie the client cannot parse
+	c.Borrow(runC03, "C03.H", "C01.T", func(k string) bool { return strings.HasPrefix(k, "server.(*proxy).ServeHTTP:copy") })
 	c.Rule("C01.B", "App Engine store: multi-part bodies are recorded and read back in part order (= C19.K)", 2)
 	ruleBlobParts(c, p, "C01.B")
 	c.Rule("C01.C", "App Engine proxy: the GET response cache uses one injective key of (user, URL); memcache keys of stored requests/responses are injective in (backend ID, request ID) (= C17.S, C19.S)", 11)
